@@ -401,3 +401,51 @@ func VerifC13_GetAndSet() {
 	})
 	_ = db.Close()
 }
+
+// VerifC13_StringListOverwrite: a stored string list is overwritten with an
+// arbitrary list drawn from the old elements and a new one, repeats allowed:
+// what reads back is exactly the set of the new list's elements.
+func VerifC13_StringListOverwrite() {
+	univ := []string{"alpha", "gamma", "zeta"}
+	var old []string
+	var oldIn [3]bool
+	for i := 0; i < 2; i++ {
+		if verifrt.Bool("old.has") {
+			old = append(old, univ[i])
+			oldIn[i] = true
+		}
+	}
+	n := verifrt.Choose("new.len", 4)
+	var nw []string
+	var newIn [3]bool
+	for i := 0; i < n; i++ {
+		k := verifrt.Choose("new.elem", 3)
+		nw = append(nw, univ[k])
+		newIn[k] = true
+	}
+	db := verifrt.OpenDB()
+	err := db.Update(func(tx *bbolt.Tx) error {
+		b := GetOrCreatePath(tx, "root", "e")
+		b.SetStringList("l", old, nil)
+		return b.GetError()
+	})
+	verifrt.Assert(err == nil, "C13 initial list write succeeds")
+	err = db.Update(func(tx *bbolt.Tx) error {
+		b := Path(tx, "root", "e")
+		b.SetStringList("l", nw, nil)
+		return b.GetError()
+	})
+	verifrt.Assert(err == nil, "C13 list overwrite succeeds")
+	_ = db.View(func(tx *bbolt.Tx) error {
+		got := Path(tx, "root", "e").GetStringList("l")
+		var want []string
+		for k, in := range newIn {
+			if in {
+				want = append(want, univ[k])
+			}
+		}
+		verifrt.Assert(verifSameStrings(got, want), "C13 an overwritten string list reads back as exactly the elements written (repeats collapse, old elements gone)")
+		return nil
+	})
+	_ = db.Close()
+}
